@@ -80,6 +80,18 @@ CLAIMED = {
         note="Trusted base: world model; observation points matched by declared name / prototype+tile.",
         ref="DESIGN.md §8 C12",
     ),
+    "C15": dict(
+        engine="factosim-exec",
+        text="Seeded twin co-simulation: programs with functions (int / Signal parameters, entity-returning functions, locals incl. names shadowing outer ones, local memories and places, nested calls, calls inside loops, several call sites) and their manually inlined twins (parameters bound, locals renamed apart per call site, return expression in place of the call - produced by the generator's own inliner) are compiled under independent fault plans and driven by one input history; output anchors compared as multisets per name group, entity conditions and user-placed entities by prototype and tile; bodies with local memories are compared tick by tick.",
+        note="Trusted base: the generator-side inliner and world model. Multiset comparison per name group can miss a permutation but cannot raise a false alarm.",
+        ref="DESIGN.md §8 C15",
+    ),
+    "C16": dict(
+        engine="factosim-exec",
+        text="Seeded twin co-simulation: programs with loops (ranges incl. negative / empty / descending / non-dividing steps, int-variable bounds, list iterators, nesting <= 3; bodies using the iterator in arithmetic, comparisons, signal-literal values and coordinates, placing entities, declaring memories, calling functions) and the reference unrolling with per-iteration fresh names are compiled under independent fault plans and driven by one input history; anchors compared as multisets per name group, entity conditions by tile, user-placed entities against the reference unroller (C09 oracle); memory-declaring bodies are compared tick by tick.",
+        note="Trusted base: the reference unroller (documented range semantics: exclusive end, default step 1) and world model.",
+        ref="DESIGN.md §8 C16",
+    ),
 }
 
 NOT_YET = {}
